@@ -378,7 +378,7 @@ func (c *Ctx) Or(a, b *Term) *Term {
 }
 
 func (c *Ctx) Implies(a, b *Term) *Term { return c.Or(c.Not(a), b) }
-func (c *Ctx) Iff(a, b *Term) *Term    { return c.Eq(a, b) }
+func (c *Ctx) Iff(a, b *Term) *Term     { return c.Eq(a, b) }
 
 func (c *Ctx) Ite(cnd, a, b *Term) *Term {
 	if cnd.IsConst() {
